@@ -284,7 +284,9 @@ where
         Conv::Outer => " + color_converted(outermost)",
         Conv::Inner => " + color_converted(innermost)",
     };
-    let setup = format!("parent {} box {:?}, stack {}{}", native, rt(&parent_box), stack_text(&stack), conv_txt);
+    // a third of the parents consumes the iterators it receives by internal iteration (for_each)
+    let internal = rng.chance(1, 3);
+    let setup = format!("parent {}{} box {:?}, stack {}{}", native, if internal { " (consuming with for_each)" } else { "" }, rt(&parent_box), stack_text(&stack), conv_txt);
     let sclass = format!("{}{}", kinds.iter().map(|k| ["T", "R", "L"][*k as usize]).collect::<String>(), if conv == Conv::None { "" } else { "+cc" });
 
     // (3) documented bounding box of every level
@@ -315,6 +317,10 @@ where
 
     let mut parent = P::with_box(parent_box);
     parent.log_mut().keep_pixels = true;
+    parent.log_mut().internal_iteration = internal;
+    if internal {
+        ctx.count("histories_on_parents_consuming_with_for_each", 1);
+    }
     let mut model_map = PixMap::new();
     let clip = composed_clip(&levels);
     let n_ops = rng.usizer(1, 12);
